@@ -21,7 +21,7 @@ var C05Driver = Driver{
 def b(f): try f catch errstr;
 def rec: [., ._path, ._start, ._stop, b(tobits), b(tobytes), b(._bits), b(._bytes), type];
 `,
-	Tree: `[walkdv] | if $c.max > 0 and length > $c.max then "SKIP:\(length)" else map(rec) end`,
+	Tree: `sized($c; rec)`,
 	// tovalue of all roots of the batch at once per bits_format: every raw leaf below is
 	// rendered through decodeValue.JQValueToGoJQEx exactly as by tovalue on the leaf
 	Batch: `. as $roots
